@@ -145,6 +145,8 @@ func shapes(family int) []cfgShape {
 	case 0:
 		return []cfgShape{
 			{name: "schemaless", rels: []string{"r0", "r1"}, ns: &namespace.Namespace{Name: nsN}},
+			// subject sets with the empty relation ("N:o#"), as OPL-typed object references are stored
+			{name: "schemaless-with-empty-relation", rels: []string{"r0", ""}, ns: &namespace.Namespace{Name: nsN}},
 			// two namespaces that use the same relation name (and share the object names)
 			{name: "schemaless-two-namespaces", rels: []string{"r0", "r0"}, relNS: []string{nsN, "M"}, ns: &namespace.Namespace{Name: nsN},
 				nss: []*namespace.Namespace{{Name: nsN}, {Name: "M"}}},
@@ -768,6 +770,7 @@ var (
 	verifCalls      int  // storage calls issued
 	verifFailAt     int  // storage call number that fails (0 = none)
 	verifPersistent bool // every call >= verifFailAt fails
+	verifFaultCancelled bool // the injected failure wraps context.Canceled
 	verifCancelAt   int  // storage call during which the request context is cancelled (0 = none)
 	verifCancel     context.CancelFunc
 	verifFaults     int
